@@ -200,17 +200,12 @@ fn table_or(l: Ev, r: Ev) -> Ev {
     Ev { ctl, sel: l.sel || r.sel }
 }
 
-/// Why a case is not judged (documented-ambiguous corner)
+/// Why a case is not judged at all
 #[derive(Clone, Copy, Debug, PartialEq, Eq, Hash, PartialOrd, Ord)]
 pub enum Undefined {
     /// `beyond`/`not_beyond` joined by `or`: the modifier table yields a
     /// selection of `true`, the prose says the modifiers never change selection
     TraversalModifierWithOr,
-    /// `beyond` whose condition fails at the origin (distance 0)
-    BeyondAtOrigin,
-    /// `beyond` over a condition that itself evaluates to Stop(true): the table
-    /// entry `&& Continue(true)` can be read as keeping or dropping the Stop
-    BeyondOverStop,
     /// comparison cell the documentation does not define
     ComparisonCell,
     /// distance condition in a search kind where "distance" is not defined
@@ -221,8 +216,6 @@ impl Undefined {
     pub fn name(&self) -> &'static str {
         match self {
             Undefined::TraversalModifierWithOr => "beyond-or-not_beyond-joined-by-or",
-            Undefined::BeyondAtOrigin => "beyond-failing-at-origin",
-            Undefined::BeyondOverStop => "beyond-over-stop(true)",
             Undefined::ComparisonCell => "undocumented-comparison-cell",
             Undefined::DistanceUndefinedHere => "distance-undefined-for-this-search",
         }
@@ -274,9 +267,56 @@ pub fn has_distance(conds: &[QueryCondition]) -> bool {
     })
 }
 
+fn has_beyond(conds: &[QueryCondition]) -> bool {
+    conds.iter().any(|c| c.modifier == QueryConditionModifier::Beyond || matches!(&c.data, QueryConditionData::Where(inner) if has_beyond(inner)))
+}
+
+/// `beyond` directly over a condition that can itself evaluate to Stop (distance, nested where)
+fn has_beyond_over_stoppable(conds: &[QueryCondition]) -> bool {
+    conds.iter().any(|c| {
+        (c.modifier == QueryConditionModifier::Beyond && matches!(&c.data, QueryConditionData::Distance(_) | QueryConditionData::Where(_)))
+            || matches!(&c.data, QueryConditionData::Where(inner) if has_beyond_over_stoppable(inner))
+    })
+}
+
+/// One consistent way of reading the corners the documentation leaves open.
+/// A result is accepted if it is the reference result under ANY reading, so
+/// that no documented-conformant implementation is flagged:
+///  * when a `distance` condition stops the search (see `DistancePolicy`);
+///  * `beyond` whose condition fails at the origin: queries.md is silent
+///    (literally the search would stop at the origin), the rustdoc of
+///    `beyond()` says it "does not block traversal from the starting element";
+///  * `beyond` over a condition that itself evaluates to Stop(true): the
+///    modifier table's `&& Continue(true)` can be read as keeping the Stop
+///    (Stop && Continue = Stop) or as replacing the control by Continue.
+#[derive(Clone, Copy, Debug, PartialEq, Eq)]
+pub struct Readings {
+    pub distance: DistancePolicy,
+    pub beyond_blocks_at_origin: bool,
+    pub beyond_keeps_inner_stop: bool,
+}
+
+pub const PLAIN_READING: Readings = Readings { distance: DistancePolicy::FalseFromHereEqualAtMatch, beyond_blocks_at_origin: false, beyond_keeps_inner_stop: false };
+
+/// the readings that can make a difference for this condition list
+pub fn readings_for(conds: &[QueryCondition]) -> Vec<Readings> {
+    let distances: &[DistancePolicy] = if has_distance(conds) { &DISTANCE_POLICIES } else { &DISTANCE_POLICIES[..1] };
+    let origin: &[bool] = if has_beyond(conds) { &[false, true] } else { &[false] };
+    let inner: &[bool] = if has_beyond_over_stoppable(conds) { &[false, true] } else { &[false] };
+    let mut v = vec![];
+    for d in distances {
+        for o in origin {
+            for i in inner {
+                v.push(Readings { distance: *d, beyond_blocks_at_origin: *o, beyond_keeps_inner_stop: *i });
+            }
+        }
+    }
+    v
+}
+
 pub struct EvalCtx<'a> {
     pub g: &'a RefGraph,
-    pub policy: DistancePolicy,
+    pub readings: Readings,
     /// None: the search kind has no notion of distance (elements search)
     pub distance: Option<u64>,
 }
@@ -287,7 +327,7 @@ fn eval_data(ctx: &EvalCtx, id: i64, data: &QueryConditionData) -> Result<Ev, Un
     match data {
         QueryConditionData::Distance(c) => {
             let d = ctx.distance.ok_or(Undefined::DistanceUndefinedHere)?;
-            Ok(Ev { ctl: if distance_stops(ctx.policy, c, d) { Ctl::Stop } else { Ctl::Continue }, sel: count_holds(c, d) })
+            Ok(Ev { ctl: if distance_stops(ctx.readings.distance, c, d) { Ctl::Stop } else { Ctl::Continue }, sel: count_holds(c, d) })
         }
         QueryConditionData::Edge => cont(id < 0),
         QueryConditionData::Node => cont(id > 0),
@@ -325,14 +365,12 @@ pub fn eval_conditions(ctx: &EvalCtx, id: i64, conds: &[QueryCondition]) -> Resu
             QueryConditionModifier::Not => Ev { ctl: inner.ctl, sel: !inner.sel },
             QueryConditionModifier::Beyond => {
                 if inner.sel {
-                    if inner.ctl == Ctl::Stop {
-                        return Err(Undefined::BeyondOverStop);
-                    }
-                    Ev { ctl: Ctl::Continue, sel: true } // `&& Continue(true)`
+                    // `&& Continue(true)`
+                    let keep = inner.ctl == Ctl::Stop && ctx.readings.beyond_keeps_inner_stop;
+                    Ev { ctl: if keep { Ctl::Stop } else { Ctl::Continue }, sel: true }
+                } else if ctx.distance == Some(0) && !ctx.readings.beyond_blocks_at_origin {
+                    Ev { ctl: Ctl::Continue, sel: true }
                 } else {
-                    if ctx.distance == Some(0) {
-                        return Err(Undefined::BeyondAtOrigin);
-                    }
                     Ev { ctl: Ctl::Stop, sel: true } // `Stop(true)`
                 }
             }
@@ -380,7 +418,7 @@ pub struct Visit {
 /// element whose conditions evaluate to Stop is not expanded.
 /// BFS: level by level, a node's edges newest first. DFS: recursive
 /// pre-order, a node's edges newest first.
-pub fn ref_traverse(g: &RefGraph, origin: i64, kind: Kind, conds: &[QueryCondition], policy: DistancePolicy) -> Result<Vec<Visit>, Undefined> {
+pub fn ref_traverse(g: &RefGraph, origin: i64, kind: Kind, conds: &[QueryCondition], readings: Readings) -> Result<Vec<Visit>, Undefined> {
     let mut visited: BTreeSet<i64> = BTreeSet::new();
     let mut out = vec![];
     if !g.exists(origin) {
@@ -388,7 +426,7 @@ pub fn ref_traverse(g: &RefGraph, origin: i64, kind: Kind, conds: &[QueryConditi
     }
     let reverse = kind.is_reverse();
     let mut examine = |id: i64, d: u64, out: &mut Vec<Visit>| -> Result<bool, Undefined> {
-        let ev = eval_conditions(&EvalCtx { g, policy, distance: Some(d) }, id, conds)?;
+        let ev = eval_conditions(&EvalCtx { g, readings, distance: Some(d) }, id, conds)?;
         out.push(Visit { id, distance: d, selected: ev.sel });
         Ok(ev.ctl == Ctl::Continue)
     };
@@ -438,8 +476,8 @@ pub enum Usable {
     Stop,
 }
 
-pub fn usability(g: &RefGraph, id: i64, is_origin: bool, conds: &[QueryCondition]) -> Result<Usable, Undefined> {
-    let ctx = EvalCtx { g, policy: DistancePolicy::Never, distance: Some(if is_origin { 0 } else { 1 }) };
+pub fn usability(g: &RefGraph, id: i64, is_origin: bool, conds: &[QueryCondition], readings: Readings) -> Result<Usable, Undefined> {
+    let ctx = EvalCtx { g, readings, distance: Some(if is_origin { 0 } else { 1 }) };
     let ev = eval_conditions(&ctx, id, conds)?;
     Ok(match (ev.ctl, ev.sel) {
         (Ctl::Stop, _) => Usable::Stop,
@@ -458,7 +496,7 @@ pub struct PathReference {
 
 /// Brute force over all directed paths origin -> destination that visit no
 /// node twice (costs are positive, so a minimum-cost path never repeats a node).
-pub fn ref_paths(g: &RefGraph, origin: i64, destination: i64, conds: &[QueryCondition]) -> Result<PathReference, Undefined> {
+pub fn ref_paths(g: &RefGraph, origin: i64, destination: i64, conds: &[QueryCondition], readings: Readings) -> Result<PathReference, Undefined> {
     let mut r = PathReference { min_cost: None, acceptable: BTreeSet::new(), usable_paths: 0 };
     if origin == destination || !g.is_node(origin) || !g.is_node(destination) {
         return Ok(r);
@@ -466,7 +504,7 @@ pub fn ref_paths(g: &RefGraph, origin: i64, destination: i64, conds: &[QueryCond
     // usability of every element
     let mut us = std::collections::BTreeMap::new();
     for id in g.elements() {
-        us.insert(id, usability(g, id, id == origin, conds)?);
+        us.insert(id, usability(g, id, id == origin, conds, readings)?);
     }
     if us[&origin] == Usable::Stop {
         return Ok(r);
